@@ -70,7 +70,7 @@ def make_build(spec, law, sizes):
 
   def build(c):
     need = {'assoc': (na, nb, nc, 0), 'commute': (na, nb, 0, 0), 'neutral': (na, 0, 0, 0),
-            'operand': (na, nb, 0, 1), 'reread': (na, nb, 0, 1), 'nary': (na, nb, nc, 1)}[law]
+            'operand': (na, nb, 0, 1), 'operand0': (na, nb, 0, 1), 'reread': (na, nb, 0, 1), 'nary': (na, nb, nc, 1)}[law]
     rows, k = [], 0
     for cnt in need:
       rows.append([spec.gen(c, k + j) for j in range(cnt)])
@@ -123,6 +123,22 @@ def make_build(spec, law, sizes):
         r3 = O(a2)
         twin = merge(st(ra), st(rb)); twin.add(*spec.to_batch(rx))
         return (r1, r2, r3), (b_before, b_before, O(twin))
+      res = guarded(run)
+      out['left'], out['right'] = res if res[0] != 'EXC' else (res, None)
+    elif law == 'operand0':
+      # the receiver is the FRESH accumulator (what merge_states([create_state(), s1, s2, ...]) does): it may not adopt the
+      # operand's buffers - later merges / adds into the receiver must not change what the operand reports
+      def run():
+        e, b = st([]), st(rb)
+        b_before = O(st(rb))
+        e2 = merge(e, b)
+        r1 = O(b)
+        e2.add(*spec.to_batch(rx))
+        r2 = O(b)
+        e2 = merge(e2, st(ra))
+        r3 = O(b)
+        twin = merge(st([]), st(rb)); twin.add(*spec.to_batch(rx)); twin = merge(twin, st(ra))
+        return (r1, r2, r3, O(e2)), (b_before, b_before, b_before, O(twin))
       res = guarded(run)
       out['left'], out['right'] = res if res[0] != 'EXC' else (res, None)
     elif law == 'nary':
@@ -301,14 +317,14 @@ def run(tier):
       continue
     if s.name.startswith('TopKWordNGrams_k2') or s.name == 'TopKRetrievalRagged':
       continue   # ragged rankings: the k-list truncation defect is recorded under C01 (known finding) and would only repeat here
-    for law in ('assoc', 'commute', 'neutral', 'operand', 'reread', 'nary'):
+    for law in ('assoc', 'commute', 'neutral', 'operand', 'operand0', 'reread', 'nary'):
       if law == 'commute' and not s.order_insensitive:
         continue
       for sh in shapes:
         if law == 'nary' and (sh != (1, 1, 1) or (tier == 'quick' and s.name in NARY_HEAVY)):
           continue
         jobs.append((s.name, law, sh, tier, common.seed()))
-  rep.bounds(batch_sizes_of_a_b_c=shapes, laws=['assoc', 'commute', 'neutral', 'operand', 'reread', 'nary (one merge_states call over 4 states)'], metrics=[s.name for s in specs],
+  rep.bounds(batch_sizes_of_a_b_c=shapes, laws=['assoc', 'commute', 'neutral', 'operand', 'operand0 (fresh receiver)', 'reread', 'nary (one merge_states call over 4 states)'], metrics=[s.name for s in specs],
              note='each state is built from one batch of the given size by the real add(); the empty state is the freshly made accumulator')
   rep.outside('floating-point rounding', '+-inf intermediate values (cut paths counted)', 'states built from more than 2 rows per batch',
               'FixedSizeSample: only the operand/size/membership/reviewed-count law with directly constructed reservoirs')
